@@ -1515,7 +1515,7 @@ impl<'v> World<'v> {
         let after = self.io_counters(id);
         if self.dead_since.is_some() {
             let ok_result = match op {
-                OpK::Disconnect => res == Res::Ok,
+                OpK::Disconnect | OpK::MarkDead => res == Res::Ok,
                 _ => res == Res::Disconnected,
             };
             let mut sh = self.sh.borrow_mut();
@@ -1541,7 +1541,7 @@ impl<'v> World<'v> {
             // a disconnect() dropped after the transport accepted part of the DISCONNECT has been "called"
             // for good: nothing may follow those bytes
             let disc_begun = op == OpK::Disconnect && res == Res::Cancelled && self.sh.borrow().oracle.conns[id].disc_cancelled;
-            let now_dead = peer_closed || res.fatal() || disc_begun || (op == OpK::Disconnect && matches!(res, Res::Ok | Res::Transport));
+            let now_dead = peer_closed || res.fatal() || disc_begun || op == OpK::MarkDead || (op == OpK::Disconnect && matches!(res, Res::Ok | Res::Transport));
             if now_dead {
                 self.dead_since = Some(after);
                 let mut sh = self.sh.borrow_mut();
@@ -2042,6 +2042,12 @@ impl<'v> World<'v> {
                 });
                 conn.verif_session_mut().verif_set_next_packet_id(target);
                 self.sh.borrow_mut().oracle.op_begin("age", None);
+                Res::Ok
+            }
+            OpK::MarkDead => {
+                self.log(|| "api: handle_disconnect".to_string());
+                self.sh.borrow_mut().oracle.op_begin("handle_disconnect", None);
+                conn.handle_disconnect();
                 Res::Ok
             }
             OpK::DropConn | OpK::Forget | OpK::IntoInner => unreachable!(),
